@@ -171,6 +171,8 @@ impl<'a> G<'a> {
             bump(&mut self.c, "probe:identity_operand");
         }
         let dst = self.dst();
+        // sometimes through the mixed EdwardsPoint / SubgroupPoint operators (right operand must be torsion-free)
+        let via = if g == 0 && q.is_torsion_free() && self.rng.chance(1, 3) { 4 + self.rng.below(4) as u8 } else { via };
         { let st__ = Step::Bin { g, dst, a, b, sub, via }; self.emit(st__); }
     }
 
@@ -219,6 +221,11 @@ impl<'a> G<'a> {
                 }
             };
             hs[pos] = None;
+            if self.rng.chance(1, 3) {
+                // the missing point sits next to a zero scalar (a term that contributes nothing must still count)
+                bump(&mut self.c, "fault:none_point_with_zero_scalar");
+                ss[pos] = Sc { b: B(vec![0u8; 32]), k: 1 };
+            }
         }
         bump(&mut self.c, &format!("probe:msm_n={}", n));
         let (dst, it, d) = (self.dst(), self.it(), self.disp());
@@ -247,7 +254,8 @@ impl<'a> G<'a> {
             bump(&mut self.c, "fault:none_point_precomputed");
         }
         let (dst, d) = (self.dst(), self.disp());
-        { let st__ = Step::Pre { g, dst, entry, st, ss, ds, dh, d }; self.emit(st__); }
+        let it = self.rng.below(3) as u8;
+        { let st__ = Step::Pre { g, dst, entry, st, ss, ds, dh, d, it }; self.emit(st__); }
     }
 
     fn scalar_mul_entry(&mut self, g: u8) {
